@@ -78,10 +78,13 @@ class Label:
         self.src = src
 
 
+ABSORB_DEFAULT = True
+
+
 class IG:
     """inlined graph rooted at one function instance"""
 
-    def __init__(self, root, inline=None, max_depth=6, max_nodes=60000, for_once=False):
+    def __init__(self, root, inline=None, max_depth=6, max_nodes=60000, for_once=False, absorb=None):
         # for_once: assume every counted `for` loop whose header evaluates no
         # call runs its body at least once (the header is split into a
         # first-entry copy that can only enter the body)
@@ -89,6 +92,10 @@ class IG:
         self.root = root
         self.tu = root.tu
         self.inline = inline or (lambda caller_frame, ev, callee: True)
+        # absorb: a non-public member function of the caller's own class that has a single calling function is part of
+        # that function (a private helper): it is expanded even when the rule's own predicate would leave it a call, so
+        # that extracting a few statements into a private member does not change what a rule sees
+        self.absorb = ABSORB_DEFAULT if absorb is None else absorb
         self.max_depth = max_depth
         self.max_nodes = max_nodes
         self.nodes = []
@@ -97,6 +104,12 @@ class IG:
         fr = self._frame(root, None, None, {"k": "this"},
                          [{"k": "p", "i": i, "n": p["name"]} for i, p in enumerate(root.params)], 0)
         self.entry, self.exit = self._expand(fr)
+
+    def _private_helper(self, frame, callee):
+        """a member function that did not exist when the rules were armed (not in known_functions.json) is a helper somebody
+        extracted: it is expanded into its callers whatever the rule's own inlining predicate says, and it is not offered to
+        the rules as a function of its own (FactBase.find hides it)"""
+        return bool(getattr(callee, "unknown_helper", False))
 
     # ------------------------------------------------------------ construction
     def _frame(self, fn, parent, call_node, this, args, depth):
@@ -131,7 +144,7 @@ class IG:
         if len(self.nodes) > self.max_nodes:
             self.truncated = True
             return None
-        if not self.inline(frame, ev, callee):
+        if not self.inline(frame, ev, callee) and not (self.absorb and self._private_helper(frame, callee)):
             return None
         return callee
 
